@@ -349,3 +349,25 @@ Fixpoint guarded (trig : state -> op -> bool) (s : state) (os : list op) : bool 
   | [] => true
   | o :: os' => negb (trig s o) && guarded trig (fst (step s o)) os'
   end.
+
+(* ---- the maturity option as persisted state: governance proposals ----
+   The handlers read the maturity option from the governance store.  A configuration-update
+   proposal about the staking options writes the store only when it is FINALISED (passed vote,
+   ExecuteConfigUpdate); creating, checking (CheckTx), refusing, funding or voting one does not.
+   [gstep] runs the stake life cycle with the option taken from this persisted value. *)
+Inductive gop :=
+| GOp (o : op)                                  (* a stake life-cycle operation *)
+| GProposal (finalised : bool) (new_m : Z).     (* a proposal event about stakingOptions.maturityTime *)
+Definition set_m (m : Z) (o : op) : op :=
+  match o with
+  | OUnstake v d a fz ro h _ pb ff => OUnstake v d a fz ro h m pb ff
+  | OStake v d a fz bal h _ pb ff => OStake v d a fz bal h m pb ff
+  | _ => o
+  end.
+Definition gstep (gs : state * Z) (g : gop) : state * Z :=
+  match g with
+  | GOp o => (fst (step (fst gs) (set_m (snd gs) o)), snd gs)
+  | GProposal fin n => (fst gs, if fin then n else snd gs)
+  end.
+Definition grun (gs : state * Z) (l : list gop) : state * Z := fold_left gstep l gs.
+Definition not_unfinalised (g : gop) : bool := match g with GProposal false _ => false | _ => true end.
